@@ -94,6 +94,12 @@ def make_struct(r, spec, namer, structs_pool, nmembers=None, depth=2, f64=0.05, 
         else:
             ty = rand_member_type(r, spec, depth, structs_pool, f64, atomics)
         m = {"name": namer.fresh("m"), "ty": ty}
+        if ty[0] != "st" and r.random() < 0.07:
+            # the member is declared through a WGSL type alias
+            an = namer.fresh("Ty")
+            an = an[0].upper() + an[1:]
+            spec.extra_decls.append("alias %s = %s;" % (an, W.wgsl(ty)))
+            m["alias"] = an
         if r.random() < attrs:
             a, s = W.align_size(ty, spec.structs)
             if r.random() < 0.5:
@@ -407,7 +413,8 @@ def fam_bind(r, idx, sweep=None):
     if r.random() < 0.2:
         spec.globals.append(Global(namer.fresh("pv"), "private", ty=r.choice(
             [W.S("f32"), W.V(4, "f32"), W.S("bool")])))
-    stages = r.choice([["vertex"], ["fragment"], ["compute"], ["vertex", "fragment"],
+    stages = r.choice([[]] if r.random() < 0.04 else
+                      [["vertex"], ["fragment"], ["compute"], ["vertex", "fragment"],
                        ["vertex", "fragment"], ["vertex", "fragment", "compute"],
                        ["fragment", "compute"], ["compute"], ["vertex", "compute"]])
     if "compute" in stages and r.random() < 0.3:
@@ -690,7 +697,24 @@ def role_structs(r, spec, namer):
         c = Entry(namer.fresh("cs_"), "compute")
         c.workgroup_size = [1]
         c.workgroup_expected = [1, 1, 1]
+        if r.random() < 0.5:
+            # a struct taken as a parameter only by an entry point without a result
+            cin = namer.fresh("CIn")
+            cin = cin[0].upper() + cin[1:]
+            spec.structs[cin] = W.StructDef(cin, [
+                {"name": namer.fresh("gid"), "ty": W.V(3, "u32"),
+                 "builtin": "global_invocation_id"},
+                {"name": namer.fresh("lid"), "ty": W.S("u32"),
+                 "builtin": "local_invocation_index"}][:r.randint(1, 2)])
+            c.params = [{"name": "cin", "struct": cin}]
         ents.append(c)
+    if r.random() < 0.35:
+        # fragment entry without outputs (depth-only style) taking its own located struct
+        f2 = Entry(namer.fresh("fs_"), "fragment")
+        fin2 = io_struct(r, spec, namer, "FOnly")
+        f2.params = [{"name": "fin", "struct": fin2}]
+        f2.result = None
+        ents.append(f2)
     if both:
         # the host root struct cannot carry locations; use a dedicated plain struct used both as
         # storage element and as vertex input
@@ -762,12 +786,21 @@ def fam_entry(r, idx):
                 if ty == "f32" and spec.overrides and spec.overrides[-1]["ty"] == "f32" \
                         and r.random() < 0.4:
                     default = "%s * 2.0" % spec.overrides[-1]["name"]
-            spec.overrides.append({"name": namer.fresh("ov_"), "ty": ty, "id": oid,
-                                   "default": default})
+            ov = {"name": namer.fresh("ov_"), "ty": ty, "id": oid, "default": default}
+            if r.random() < 0.2:
+                # declared through a type alias
+                an = namer.fresh("Alias")
+                an = an[0].upper() + an[1:]
+                spec.extra_decls.append("alias %s = %s;" % (an, ty))
+                ov["decl_ty"] = an
+            spec.overrides.append(ov)
     # locations budget (<= 16 attributes over the entry's buffers)
     shared_pool = []
     ents = []
     nvert = r.choice([0, 1, 1, 2, 3])
+    compute_only = r.random() < 0.12
+    if compute_only:
+        nvert = 0
     for vi in range(nvert):
         e = Entry(namer.fresh("vs_"), "vertex")
         nstruct = r.choice([0, 1, 1, 2, 3])
@@ -824,7 +857,7 @@ def fam_entry(r, idx):
             vo = io_struct(r, spec, namer, "VOut", with_position=True)
             e.result = {"kind": "struct", "struct": vo}
         ents.append(e)
-    nfrag = r.choice([0, 1, 1, 2])
+    nfrag = 0 if compute_only else r.choice([0, 1, 1, 2])
     for fi in range(nfrag):
         e = Entry(namer.fresh("fs_"), "fragment")
         k = r.random()
@@ -1028,6 +1061,10 @@ def fam_const(r, idx):
                "// trailing backslash \\",
                "// \"#  \"##  #\" r\"x\" b'\\''"]
     spec.header = r.sample(hostile, r.randint(0, 4))
+    if idx % 11 == 5:
+        # embedded sources above 64 KiB with multi-byte characters at every offset class
+        spec.header.append("//" + "a" * (idx % 4) + "é" * 40000)
+        spec.header.append("/* " + "😀变" * 9000 + " */")
     spec.line_ending = r.choice(["\n", "\n", "\r\n", "\n"])
     spec.entries = [Entry(namer.fresh("cs_"), "compute")]
     spec.entries[0].workgroup_size = [1]
